@@ -181,6 +181,7 @@ func (v *VStruct) validate(structName string, value reflect.Value, isValidGather
 		}
 
 		fieldValue := tv.Field(fieldInfo.offset)
+		descended := false // 同一字段有多个 required/exist 时, 嵌套的对象只验证一次
 		// 根据 tag 中的验证内容进行验证
 		for _, validName := range ValidNamesSplit(fieldInfo.validNames) {
 			if validName == "" {
@@ -200,9 +201,11 @@ func (v *VStruct) validate(structName string, value reflect.Value, isValidGather
 			if fn == nil {
 				switch validKey {
 				case Required:
-					v.required(structName, fieldInfo.name, cusMsg, fieldValue)
+					v.required(structName, fieldInfo.name, cusMsg, fieldValue, descended)
+					descended = true
 				case Exist:
-					v.exist(true, structName, fieldInfo.name, cusMsg, fieldValue)
+					v.exist(true, structName, fieldInfo.name, cusMsg, fieldValue, descended)
+					descended = true
 				case Either, BothEq:
 					v.vc.initValid2FieldsMap(&name2Value{
 						validName:  validName,
@@ -252,7 +255,7 @@ func (v *VStruct) getCacheStructType(ty reflect.Type) structType {
 }
 
 // required 验证 required
-func (v *VStruct) required(structName, fieldName, cusMsg string, tv reflect.Value) {
+func (v *VStruct) required(structName, fieldName, cusMsg string, tv reflect.Value, skipNested ...bool) {
 	ok := true
 	// 如果集合类型先判断下长度
 	switch tv.Kind() {
@@ -273,15 +276,17 @@ func (v *VStruct) required(structName, fieldName, cusMsg string, tv reflect.Valu
 	}
 
 	// 有值的话再判断下嵌套的类型
-	v.exist(false, structName, fieldName, cusMsg, tv)
+	v.exist(false, structName, fieldName, cusMsg, tv, skipNested...)
 }
 
 // exist 存在验证, 用于验证嵌套结构,slice,map
-func (v *VStruct) exist(isValidTvKind bool, structName, fieldName, cusMsg string, tv reflect.Value) {
+// skipNested 为 true 时不再进入嵌套对象(已由同一字段的前一个 required/exist 验证过)
+func (v *VStruct) exist(isValidTvKind bool, structName, fieldName, cusMsg string, tv reflect.Value, skipNested ...bool) {
 	// 如果空的就没必要验证了
 	if tv.IsZero() {
 		return
 	}
+	isSkipNested := len(skipNested) > 0 && skipNested[0]
 	// 去掉指针后再判断类型, 如: *int 不是嵌套对象
 	tv = RemoveValuePtr(tv)
 	if !tv.IsValid() { // 多级指针最终指向 nil
@@ -289,15 +294,21 @@ func (v *VStruct) exist(isValidTvKind bool, structName, fieldName, cusMsg string
 	}
 	switch tv.Kind() {
 	case reflect.Struct:
-		if tv.Type() == timeReflectType {
+		if tv.Type() == timeReflectType || isSkipNested {
 			return
 		}
 		v.validate(structName+"."+fieldName, tv, false)
 	case reflect.Slice, reflect.Array:
+		if isSkipNested {
+			return
+		}
 		for i := 0; i < tv.Len(); i++ {
 			v.validate(structName+"."+fieldName+"["+ToStr(i)+"]", tv.Index(i), true)
 		}
 	case reflect.Map:
+		if isSkipNested {
+			return
+		}
 		iter := tv.MapRange()
 		for iter.Next() {
 			v.validate(structName+"."+fieldName+"["+ToStr(iter.Key())+"]", iter.Value(), true)
